@@ -47,6 +47,7 @@ macro_rules! pos_after_law {
 // tiny bound: stays tractable even if the code under test gets heavier (e.g. char-based
 // iteration) - one multi-byte char or a newline plus a byte is enough to expose a wrong law
 pos_after_law!(pos_after_law_2, 2, 4);
+pos_after_law!(pos_after_law_3, 3, 5);
 pos_after_law!(pos_after_law_4, 4, 6);
 pos_after_law!(pos_after_law_6, 6, 8);
 pos_after_law!(pos_after_law_8, 8, 10);
